@@ -626,6 +626,12 @@ func propC13(c *Ctx) {
 	ruleResetAlways(c, rra, roles)
 	rsm := c.Rule("set-monotone", "the disabled set of an existing symbol table only grows: the whole set is assigned only while it is still nil or on a brand-new table", 2)
 	ruleSetMonotone(c, rsm, roles)
+	rds := c.Rule("define-scope", "the symbol DefineGlobal hands back to be indexed is a global (new, or tested to be of global scope), never a cached builtin symbol", 1)
+	ruleDefineGlobalScope(c, rds)
+	rdn := c.Rule("disabled-never-deleted", "no name is removed from a symbol table's set of disabled builtins except by the table's own reset", 1)
+	ruleDisabledNeverDeleted(c, rdn, roles)
+	rrt := c.Rule("reset-total", "reset removes every symbol of the table (the evaluator's scratch table keeps no builtin resolved by an earlier evaluation)", 1)
+	ruleResetTotal(c, rrt, roles)
 	rso := c.Rule("set-owned", "every symbol table owns its set of disabled builtins: the field is assigned a map made on the spot, never another table's set", 2)
 	ruleSetOwned(c, rso, roles)
 }
